@@ -7,7 +7,7 @@ from hypothesis import strategies as st
 
 from pv import framing, gen, model, streams
 from pv.core import Fail, Res, Sub, lib_frame
-from pv.doubles import HardStop, ScriptedStream
+from pv.doubles import BudgetBytesIO, HardStop, ScriptedStream
 
 PROPERTY = "C04"
 RULE = (
@@ -215,7 +215,7 @@ def o_iter(case):
     if case["stream"] == "scripted":
         stream = ScriptedStream(data, case["script"], slack=32)
     else:
-        stream = io.BytesIO(data)
+        stream = BudgetBytesIO(data)
     calls = []
     rdr = RTCMReader(stream, validate=case["validate"], quitonerror=qoe, parsed=case["parsed"], errorhandler=(lambda e: calls.append(e)) if case["handler"] else None)
     n = 0
